@@ -1,213 +1,16 @@
 //! C01 — equality is exactly the congruence closure of what was asserted.
-//!
-//! Generated monotone histories run in lockstep on the engine and on the naive
-//! reference interpreter. After EVERY command: (1) canonical dumps must be
-//! isomorphic (every table, every class named by its least term), (2) on a clone
-//! of the engine, `(check (= t1 t2))` for sampled pairs of ground terms must
-//! succeed exactly for the pairs the model puts in one class, (3) `(extract t)`
-//! must print a term of t's class, equal for equal terms and different otherwise.
+//! (see lockstep.rs for the machinery)
 
-use super::*;
-use crate::choice::{fnv_str, Src};
-use crate::fw::{Outcome, Report, Stage, Tier};
-use crate::pgen::{simplify_prog, Gen, GenCfg};
-use serde::{Deserialize, Serialize};
+use super::lockstep::{Lockstep, Mode};
+use crate::fw::{Report, Tier};
+use crate::pgen::GenCfg;
 
-#[derive(Clone, Serialize, Deserialize)]
-pub struct Case {
-    pub prog: Prog,
-    pub probe: u64,
-}
-
-pub struct C01 {
-    pub cfg: GenCfg,
-    pub pairs_per_prefix: usize,
-}
-
-pub fn all_ground_terms(p: &Prog) -> Vec<Term> {
-    fn walk_fact(f: &Fact, out: &mut Vec<Term>) {
-        match f {
-            Fact::Eq(a, b) => {
-                collect(a, out);
-                collect(b, out);
-            }
-            Fact::T(t) => collect(t, out),
-        }
-    }
-    fn ground(t: &Term) -> bool {
-        let mut v = vec![];
-        t.vars(&mut v);
-        v.is_empty()
-    }
-    fn collect(t: &Term, out: &mut Vec<Term>) {
-        let mut subs = vec![];
-        t.subterms(&mut subs);
-        for s in subs {
-            if matches!(s, Term::App(..)) && ground(&s) && !out.contains(&s) {
-                out.push(s);
-            }
-        }
-    }
-    let mut out = vec![];
-    for c in &p.cmds {
-        match c {
-            Cmd::Act(Action::Expr(t)) => collect(t, &mut out),
-            Cmd::Act(Action::Union(a, b)) => {
-                collect(a, &mut out);
-                collect(b, &mut out);
-            }
-            Cmd::Act(Action::Set(f, args, _)) | Cmd::Act(Action::Subsume(f, args)) | Cmd::Act(Action::Delete(f, args)) => {
-                collect(&Term::App(*f, args.clone()), &mut out)
-            }
-            Cmd::Check(fs) => fs.iter().for_each(|f| walk_fact(f, &mut out)),
-            _ => {}
-        }
-    }
-    out
-}
-
-impl C01 {
-    fn probes(&self, case: &Case, eg: &egglog::EGraph, model: &Model, terms: &[Term], probe: &mut Probe, idx: usize, out: &mut Outcome) {
-        let sig = &case.prog.sig;
-        // only eq-sort terms
-        let eq_terms: Vec<&Term> = terms
-            .iter()
-            .filter(|t| match t {
-                Term::App(f, _) => matches!(sig.funcs[*f].out, Ty::Eq(_)) && sig.funcs[*f].is_ctor(),
-                _ => false,
-            })
-            .collect();
-        if eq_terms.len() < 2 {
-            return;
-        }
-        let mut clone = eg.clone();
-        for _ in 0..self.pairs_per_prefix {
-            let a = eq_terms[probe.below(eq_terms.len())];
-            let b = eq_terms[probe.below(eq_terms.len())];
-            let (Term::App(fa, _), Term::App(fb, _)) = (a, b) else { continue };
-            if sig.funcs[*fa].out != sig.funcs[*fb].out {
-                continue;
-            }
-            let (va, vb) = (model.eval_ground(a), model.eval_ground(b));
-            let expected = va.is_some() && vb.is_some() && va == vb;
-            let text = format!("(check (= {} {}))", sig.term(a), sig.term(b));
-            let r = eng::run(&mut clone, &text);
-            out.count("check_probes", 1);
-            match (&r, expected) {
-                (CmdRes::Ok(_), true) => out.count("check_probes_equal", 1),
-                (CmdRes::Err(ErrKind::Check, _), false) => {}
-                (CmdRes::Ok(_), false) => {
-                    out.fail(
-                        "check-invented-equality",
-                        format!("after command #{idx}: `{text}` succeeds, but the terms are not equal (or not both represented) in the congruence closure of the asserted unions"),
-                    );
-                    return;
-                }
-                (CmdRes::Err(ErrKind::Check, _), true) => {
-                    out.fail("check-missed-equality", format!("after command #{idx}: `{text}` fails, but the equality follows from the asserted unions by congruence closure"));
-                    return;
-                }
-                (other, _) => {
-                    out.fail("check-probe-error", format!("after command #{idx}: `{text}` gave {}", other.short()));
-                    return;
-                }
-            }
-            // extraction channel (only for represented terms, and only when every constructor is extractable)
-            if va.is_some() && vb.is_some() {
-                let ea = eng::run(&mut clone, &format!("(extract {})", sig.term(a)));
-                let eb = eng::run(&mut clone, &format!("(extract {})", sig.term(b)));
-                if let (CmdRes::Ok(oa), CmdRes::Ok(ob)) = (&ea, &eb) {
-                    if oa.len() == 1 && ob.len() == 1 {
-                        out.count("extract_probes", 1);
-                        let (sa, sb) = (oa[0].trim(), ob[0].trim());
-                        if (sa == sb) != expected {
-                            out.fail(
-                                "extract-class-mismatch",
-                                format!("after command #{idx}: extract {} = {sa}, extract {} = {sb}; model says equal={expected}", sig.term(a), sig.term(b)),
-                            );
-                            return;
-                        }
-                        if let Some(t) = sig.parse_term(sa) {
-                            let got = model.eval_ground(&t);
-                            if got != va {
-                                out.fail(
-                                    "extract-outside-class",
-                                    format!("after command #{idx}: (extract {}) printed {sa}, which the model evaluates to {:?}, but the root is {:?}", sig.term(a), got, va),
-                                );
-                                return;
-                            }
-                        }
-                    }
-                }
-            }
-        }
-    }
-}
-
-impl Stage for C01 {
-    type Input = Case;
-    fn name(&self) -> &'static str {
-        "lockstep"
-    }
-    fn decode(&self, src: &mut Src) -> Case {
-        let probe = src.u16() as u64;
-        let prog = Gen::new(src, self.cfg.clone()).gen_prog();
-        Case { prog, probe }
-    }
-    fn render(&self, inp: &Case) -> serde_json::Value {
-        serde_json::json!({"program": inp.prog.text().lines().collect::<Vec<_>>(), "probe": inp.probe})
-    }
-    fn simplify(&self, inp: &Case) -> Vec<Case> {
-        simplify_prog(&inp.prog).into_iter().map(|p| Case { prog: p, probe: inp.probe }).collect()
-    }
-    fn check(&self, case: &Case) -> Outcome {
-        let prog = &case.prog;
-        let mut out = Outcome::new(fnv_str(&prog.text()));
-        let mut eg = egglog::EGraph::default();
-        if !declare(&mut eg, &prog.sig, &mut out) {
-            return out;
-        }
-        let mut model = Model::new(&prog.sig);
-        let terms = all_ground_terms(prog);
-        let mut probe = Probe(case.probe ^ out.key);
-        let mut executed = 0;
-        for (i, c) in prog.cmds.iter().enumerate() {
-            match step_both(&mut eg, &mut model, &prog.sig, i, c, &mut out) {
-                Step::Stop => break,
-                Step::Both => {}
-            }
-            executed += 1;
-            if !compare_dumps(&eg, &model, &format!("after command #{i} `{}`", prog.sig.cmd(c)), &mut out) {
-                break;
-            }
-            self.probes(case, &eg, &model, &terms, &mut probe, i, &mut out);
-            if out.fail.is_some() {
-                break;
-            }
-        }
-        out.count("commands_executed", executed);
-        out.nontrivial = model.congruence_merges >= 1;
-        if model.congruence_merges >= 1 {
-            out.class("has-congruence-merge");
-        }
-        if model.rebuild_passes_max >= 3 {
-            out.class("congruence-chain>=3-passes");
-        }
-        if model.rule_unions >= 1 {
-            out.class("rule-made-union");
-        }
-        if model.fd_merges >= 1 {
-            out.class("function-merge");
-        }
-        if model.iterations_changed >= 2 {
-            out.class("iterations-changed>=2");
-        }
-        out
-    }
+fn stage(pairs: usize) -> Lockstep {
+    Lockstep { name: "lockstep", mode: Mode::C01, cfg: GenCfg { subsume: false, delete: false, ..GenCfg::default() }, pairs_per_prefix: pairs, naive_engine: false }
 }
 
 pub fn replay(rep: &Report, _stage: &str, j: &serde_json::Value) -> i32 {
-    crate::registry::replay_stage(rep, &C01 { cfg: GenCfg::default(), pairs_per_prefix: 5 }, j)
+    crate::registry::replay_stage(rep, &stage(5), j)
 }
 
 pub fn run(rep: &Report) {
@@ -218,15 +21,13 @@ pub fn run(rep: &Report) {
     );
     rep.assume("reference interpreter refegg.rs is a faithful executable definition of congruence closure + one-iteration rule semantics (it is cross-checked against the engine on the unchanged tree)");
     rep.assume("terms not represented in the e-graph are outside the claim (egglog does not assume reflexivity for absent terms)");
-    let stage = C01 { cfg: GenCfg { subsume: false, delete: false, ..GenCfg::default() }, pairs_per_prefix: rep.tier.pick(3, 5) };
-    rep.run_regressions(&stage);
+    let st = stage(rep.tier.pick(3, 5));
+    rep.run_regressions(&st);
     let cases = match rep.tier {
-        Tier::Quick => 1500,
-        Tier::Thorough => 40_000,
+        Tier::Quick => 12_000,
+        Tier::Thorough => 150_000,
     };
-    rep.explore(&stage, cases, 400);
-    if rep.tier == Tier::Thorough {
-        let big = C01 { cfg: GenCfg { max_cmds: 40, min_cmds: 10, ..stage.cfg.clone() }, pairs_per_prefix: 4 };
-        rep.explore(&big, 6000, 1200);
-    }
+    rep.explore(&st, cases, 400);
+    let big = Lockstep { cfg: GenCfg { max_cmds: 40, min_cmds: 10, ..st.cfg.clone() }, ..stage(4) };
+    rep.explore(&big, rep.tier.pick(600, 12_000), 1200);
 }
